@@ -42,8 +42,14 @@ class C20:
         call = rc[0]
         kw = callkw(call.term)
         args = list(call.term[2])
-        shapes = args[0] if args else kw.get("shapes")
-        out_shape = kw.get("out_shape", args[1] if len(args) > 1 else None)
+        # rasterio.features.rasterize(shapes, out_shape=None, fill=0, out=None, transform=IDENTITY, all_touched=False, merge_alg=...,
+        # default_value=1, dtype=None, skip_invalid=True): positional arguments bind in this order
+        RASTERIO = ("shapes", "out_shape", "fill", "out", "transform", "all_touched", "merge_alg", "default_value", "dtype", "skip_invalid")
+        for n_, a_ in zip(RASTERIO, args):
+            if a_[0] != "star":
+                kw.setdefault(n_, a_)
+        shapes = kw.get("shapes")
+        out_shape = kw.get("out_shape")
 
         # ---- R20.1
         def size_of(dim):
@@ -84,6 +90,8 @@ class C20:
             tr = ("attr", rast, "T")
             tr2 = ("call", ("attr", rast, "transpose"), (), ())
             tr3 = ("call", ("ext", "numpy.transpose"), (rast,), ())
+            if dims is not None and dims[0] == "list":
+                dims = ("tuple", dims[1])  # dims=[xdim, ydim]: the same labels
             good = (data in (tr, tr2, tr3) and dims == ("tuple", (xdim, ydim))) or (data == rast and dims == ("tuple", (ydim, xdim)))
             cgood = coords is not None and coords[0] == "dict" and dict(coords[1]) == {xdim: ("sub", ("attr", arr, "coords"), xdim), ydim: ("sub", ("attr", arr, "coords"), ydim)}
             if good and cgood:
@@ -105,6 +113,11 @@ class C20:
             env = {isl_: is_seq, ist_: False}
             it_ = peval(sh_item, env) if sh_item is not None else None
             vt = it_[1][1] if it_ is not None and it_[0] == "tuple" and len(it_[1]) == 2 else None
+            if vt is not None and vt[0] == "sub" and vt[2] == I and vt[1][0] == "bin" and vt[1][1] == "*":
+                # ([v] * n)[i] is v for every i < n
+                for lst_, n_ in ((vt[1][2], vt[1][3]), (vt[1][3], vt[1][2])):
+                    if lst_[0] == "list" and len(lst_[1]) == 1 and n_ == LEN(geoms):
+                        vt = lst_[1][0]
             if vt is None:
                 bad = "the shapes handed to rasterio are not (shape, value) pairs aligned with the geometries"
                 break
@@ -201,6 +214,22 @@ class C20:
                     ctx.bad("R20.4", self.file, "rasterize", f"{name}: raise_error={show(got[1]) if got[1] else 'default'}",
                             "coordinates outside the template must be clamped (raise_error=False), not raise: a geometry reaching "
                             "beyond the template would abort the rasterisation", fs.node.lineno)
+            # the vertex handed back is (lookup of x, lookup of y) as they are: get_coord_index already clamps to the axis, any
+            # further arithmetic / bound on one component moves or clips the geometry on that axis only
+            lookups = [e.term for e in lam_calls]
+            disp = [x for r in fs.returns for x in walk(r.term) if x[0] in ("list", "tuple") and len(x[1]) == 2
+                    and any(y in lookups for c_ in x[1] for y in walk(c_))]
+            if okk and disp:
+                for d_ in disp:
+                    for c_ in d_[1]:
+                        if c_ not in lookups and okk:
+                            okk = False
+                            ctx.bad("R20.4", self.file, "rasterize", f"{name}: component {show(c_)[:70]}",
+                                    f"a component of the transformed vertex is not the looked-up bin itself but `{show(c_)[:100]}`: "
+                                    f"the geometry is shifted or clipped on that axis (the lookup already clamps to the axis range)", fs.node.lineno)
+            elif okk:
+                okk = False
+                ctx.undec("R20.4", site, "cannot see the (x bin, y bin) vertex returned by the coordinate transform")
             if okk:
                 ctx.ok("R20.4", f"{self.file}:{fs.node.lineno} rasterize.{name}", "x -> index on xdim, y -> index on ydim, clamped")
         # ---- R20.5 order & forwarding: element number I of the shapes is the transform of geometry number I
